@@ -2,13 +2,13 @@
 # usage: try_mutant.sh <agent-worktree> <seeded-name> <prop> [more props...]
 # 1. copies the agent's deliverables to /verif/seeded/<name>
 # 2. confirms in a scratch worktree: patch applies, builds, suite passes, demo fails with / passes without
-# 3. applies the patch to /repo, runs ./check <prop> quick for each prop, and reverts /repo
-export GOFLAGS=-mod=mod GOPROXY=off GOSUMDB=off
+# 3. runs ./check <prop> quick for each prop against that scratch worktree with the patch applied
+#    (VERIF_REPO), so /repo itself is never touched, then removes the worktree
+export GOFLAGS=-mod=mod GOPROXY=off GOSUMDB=off GOTOOLCHAIN=local
 W=$1; NAME=$2; shift 2
 D=/verif/seeded/$NAME
 mkdir -p $D
 cp $W/_out/* $D/ 2>/dev/null
-# demo file relative paths (untracked files outside _out)
 DEMOS=$(git -C $W status --porcelain --untracked-files=all | awk '$1=="??"{print $2}' | grep -v '^_out/')
 echo "demo files: $DEMOS"
 V=/tmp/mutv-$NAME
@@ -17,23 +17,23 @@ git -C /repo worktree add -q --detach $V HEAD || exit 3
 RES="$D/confirm.txt"; : > $RES
 ( cd $V
   if ! git apply $D/patch.diff; then echo "PATCH-DOES-NOT-APPLY" | tee -a $RES; exit 0; fi
-  go build ./... 2>&1 | tail -3; 
+  go build ./... 2>&1 | tail -3
   if go test -vet=off -count=1 ./... > /tmp/mutv-$NAME.suite 2>&1; then echo "suite-with-change: PASS" | tee -a $RES; else echo "suite-with-change: FAIL" | tee -a $RES; tail -20 /tmp/mutv-$NAME.suite; fi
   for f in $DEMOS; do mkdir -p $(dirname $f); cp $W/$f $f; done
   CMD=$(cat $D/demo_cmd.txt | grep -v '^#' | grep -v '^$' | tail -1 | sed "s#$W#$V#g")
   echo "demo cmd: $CMD" | tee -a $RES
-  if timeout 600 bash -c "$CMD" > /tmp/mutv-$NAME.demo1 2>&1; then echo "demo-with-change: PASS (unexpected)" | tee -a $RES; else echo "demo-with-change: FAIL (expected)" | tee -a $RES; fi
+  if timeout 900 bash -c "$CMD" > /tmp/mutv-$NAME.demo1 2>&1; then echo "demo-with-change: PASS (unexpected)" | tee -a $RES; else echo "demo-with-change: FAIL (expected)" | tee -a $RES; fi
   git apply -R $D/patch.diff
-  if timeout 600 bash -c "$CMD" > /tmp/mutv-$NAME.demo2 2>&1; then echo "demo-without-change: PASS (expected)" | tee -a $RES; else echo "demo-without-change: FAIL (unexpected)" | tee -a $RES; tail -5 /tmp/mutv-$NAME.demo2; fi
+  if timeout 900 bash -c "$CMD" > /tmp/mutv-$NAME.demo2 2>&1; then echo "demo-without-change: PASS (expected)" | tee -a $RES; else echo "demo-without-change: FAIL (unexpected)" | tee -a $RES; tail -5 /tmp/mutv-$NAME.demo2; fi
+  for f in $DEMOS; do rm -f $f; done
+  git apply $D/patch.diff
 )
-git -C /repo worktree remove --force $V
 rm -f /tmp/mutv-$NAME.*
-if grep -q "PATCH-DOES-NOT-APPLY" $RES; then exit 0; fi
+if grep -q "PATCH-DOES-NOT-APPLY" $RES; then git -C /repo worktree remove --force $V; exit 0; fi
 cd /verif
-git -C /repo apply $D/patch.diff || { echo "cannot apply to /repo"; exit 3; }
 for P in "$@"; do
-  ./check $P quick > $D/check_$P.txt 2>&1; echo "check $P exit=$?" | tee -a $RES
+  VERIF_REPO=$V VERIF_EVIDENCE_DIR=/tmp/mutv-$NAME-ev ./check $P quick > $D/check_$P.txt 2>&1; echo "check $P exit=$?" | tee -a $RES
   grep -E "^(VIOLATION|KNOWN-FINDING|violation:|cannot decide|runs=)" $D/check_$P.txt | cut -c1-300
 done
-git -C /repo checkout -- .
-git -C /repo status --short | head -3
+rm -rf /tmp/mutv-$NAME-ev
+git -C /repo worktree remove --force $V
